@@ -1384,7 +1384,9 @@ def gen_v2(seed, n, start_id=0, persist=False):
         if persist:
             pruned_to = 0
             snapped = set()
-            for _ in range(r.randint(1, 4)):
+            rounds = r.randint(1, 4)
+            for rd in range(rounds):
+                last_round = rd == rounds - 1
                 x = r.random()
                 loadable = [v for v in versions if v >= max([c for c in checkpoints if c <= pruned_to] or [min(versions)])]
                 if x < 0.6:
@@ -1398,12 +1400,25 @@ def gen_v2(seed, n, start_id=0, persist=False):
                     # K22: continuing the history from a reloaded *older* version is not supported by v2 (sharded
                     # tables: "table tree_N already exists"; unsharded: a later prune leaves the latest version
                     # unloadable): generation continues only from the latest version (below)
-                    while v + 1 in versions and r.random() < 0.7 and False:
+                    # ... except re-committing versions that exist (no checkpoint becomes due there: the last
+                    # checkpoint of the store is at most one interval behind every existing version), in the last
+                    # round of the history (no deletion of old versions follows): that works and is checked
+                    recommitted = False
+                    while v + 1 in versions and v + 1 in wlog and last_round and r.random() < 0.8:
                         lines.extend(wlog[v + 1])
                         lines.append("save")
                         v += 1
                         working = dict(versions[v])
+                        recommitted = True
                     sweep(working)
+                    if recommitted:
+                        for u in r.sample(loadable, min(3, len(loadable))):
+                            lines.append("close")
+                            lines.append("open %d" % u)
+                            sweep(dict(versions[u]))
+                        lines.append("close")
+                        lines.append("open %d" % v)
+                        working = dict(versions[v])
                     ver = v
                     if tgt == max(versions) and r.random() < 0.7:
                         # continue the history after a restart at the latest version
